@@ -26,7 +26,8 @@ NOD = 'Deb822NoDuplicateFieldsParagraphElement'
 
 def mk_heap(src, log):
     def strI(it, args, kw):
-        return args[0]
+        # _strI(text): the case-insensitive string of that text (a key object is one already)
+        return H.Key(args[0].lower(), args[0]) if isinstance(args[0], str) else args[0]
 
     def newline_hook(it, args, kw):
         log.append(('newline', args[0].name if isinstance(args[0], H.Ref) else None, it.h.version))
@@ -843,6 +844,57 @@ def r4c_copy_of_a_paragraph(rep, src):
                     rep.ok('C10.R4', fn.site, what, 'added once, parent link re-targeted')
 
 
+def r_final_newline_helper(rep, src):
+    """the helper that every re-ordering, every added field and insert / append rely on (they are interpreted with it as a primitive)
+    interpreted itself: it terminates the value of the field that stands LAST in the paragraph -- also when that field is a later
+    occurrence of a repeated name -- and nothing else; an empty paragraph has nothing to terminate"""
+    A, B, C = H.Key('a', 'A'), H.Key('b', 'B'), H.Key('c', 'C')
+    f0 = src.mod(PM).method(DUP, '_add_final_newline_if_missing')
+    if f0 is None:
+        raise AnalysisError('%s: no _add_final_newline_if_missing' % DUP)
+    for cname, layouts in ((DUP, ([A, B, A], [A, A], [B, A, C, B], [A], [])), (NOD, ([B, A, C], [A], []))):
+        f = src.mod(PM).method(cname, '_add_final_newline_if_missing')
+        rep.saw_func(f)
+        for names in layouts:
+            log = []
+            heap = mk_heap(src, log)
+            heap.hooks.pop('._add_final_newline_if_missing', None)
+            heap.class_alias = {'KV': 'Deb822KeyValuePairElement'}
+            heap.hooks['cast'] = lambda it, args, kw: args[1]
+            if cname == DUP:
+                para, kvs, _nodes = build_dup(heap, names)
+                order = [k.name for k in kvs]
+            else:
+                lst, nodes = H.build_list(heap, names)
+                table = heap.new_dict('@table')
+                for k, n in zip(names, nodes):
+                    heap.objs[table.name]['entries'].append((k, n))
+                oset = heap.alloc('OrderedSet', {'_OrderedSet__table': table, '_OrderedSet__order': lst}, name='@set')
+                d = heap.new_dict('@elements')
+                order = []
+                kvd = {}
+                for k in sorted(names, key=lambda k_: k_.cls):        # dictionary order differs from field order on purpose
+                    kvd[k.cls] = mk_kv(heap, k, k.cls + '0')
+                    heap.objs[d.name]['entries'].append((k, kvd[k.cls]))
+                order = [kvd[k.cls].name for k in names]
+                para = heap.alloc(NOD, {'_kvpair_order': oset, '_kvpair_elements': d, 'parent_element': None}, name='@para')
+            values = {heap.objs[kv_]['value_element'].name: kv_ for kv_ in order}
+            what = '_add_final_newline_if_missing on [%s]' % ' '.join(o_[len('@kv_'):] for o_ in order)
+            try:
+                H.Interp(heap).call(H.Closure(f.node, {}, para, f.cls), [])
+            except H.Raised as x:
+                rep.fail('C10.R3', f.site, what, 'raises %s (line %d)' % (x.exc, x.lineno), where=f.where)
+                continue
+            done = [values.get(e[1], e[1]) for e in log if e[0] == 'newline-value']
+            want = [order[-1]] if order else []
+            if done == want:
+                rep.ok('C10.R3', f.site, what, 'terminates %s' % (want[0][len('@kv_'):] if want else 'nothing'))
+            else:
+                rep.fail('C10.R3', f.site, what, 'terminates the value of %s; the last field of the paragraph is %s: with an unterminated last line in the document, whatever is '
+                         'placed after that field (a moved or added field, a separator and a new paragraph) is glued to its line' % (
+                             [d_[len('@kv_'):] if isinstance(d_, str) and d_.startswith('@kv_') else d_ for d_ in done] or 'no field', want[0][len('@kv_'):] if want else 'none'), where=f.where)
+
+
 def r_sort(rep, src):
     """sort_fields of both paragraph classes interpreted on symbolic heaps; `sorted` is modelled as a fixed permutation
     (reversal) of whatever sequence it is given, so the result must be the reversal of the *field order* (not of the
@@ -858,11 +910,14 @@ def r_sort(rep, src):
             log.append(('newline-value', args[0].name if isinstance(args[0], H.Ref) else None, it.h.version))
             return None
         heap.hooks['.add_final_newline_if_missing'] = nl_value
+        # (the paragraph's own helper for this is interpreted here, not trusted: whichever way sort_fields terminates the last field)
+        heap.hooks.pop('._add_final_newline_if_missing', None)
+        heap.class_alias = {'KV': 'Deb822KeyValuePairElement'}
         heap.hooks['sorted'] = lambda it, args, kw: list(reversed(it.seq(args[0])))
         heap.hooks['default_field_sort_key'] = lambda it, args, kw: args[0]
         heap.hooks['cast'] = lambda it, args, kw: args[1]
         if cname == DUP:
-            names = [B, A, B, C]
+            names = [B, A, C, B]          # (the last field is a later occurrence of a repeated name)
             para, kvs, _nodes = build_dup(heap, names)
             for kv in kvs:
                 heap.objs[kv.name]['value_element'] = heap.alloc('Deb822ValueElement', {}, name='@val_' + kv.name[len('@kv_'):])
@@ -990,3 +1045,4 @@ def check(src, rep, tier):
         from . import C05
         C05.r1b_helper(C05.Proxy(r, 'C10.R3'), src)
     rep.guard('C10.R3', helper)
+    rep.guard('C10.R3', r_final_newline_helper, src)
